@@ -188,7 +188,7 @@ static vf_case K;
 static void enumerate(void) {
 	vf_case_init(&K);
 	static const int EC[] = {NIST_P256, BSI_P256, SECG_K256, SM2_P256, BN_P256, SM9_P256}; static const int PC[] = {BN_P256, SM9_P256};
-	if (vf_bound_on("rsa-oaep")) { static const long BITS[] = {768, 1024, 2048}; for (int bi = 0; bi < (vf_tier ? 3 : 2); bi++) { long k = BITS[bi] / 8, max = k - 66; for (long len = 0; len <= max + 2; len++) for (long pat = 0; pat < 4; pat++) if (vf_mine()) { K.op = "rsa"; K.n = 4; mpz_set_si(K.v[0], BITS[bi]); mpz_set_si(K.v[1], 0); mpz_set_si(K.v[2], len); mpz_set_si(K.v[3], pat); vf_run(&K); } } vf_bound_done("rsa-oaep"); }
+	if (vf_bound_on("rsa-oaep")) { static const long BITS[] = {768, 1024, 896}; /* 2048-bit RSA does not fit the configured precision (BN_PRECI = 1024) */ for (int bi = 0; bi < (vf_tier ? 3 : 2); bi++) { long k = BITS[bi] / 8, max = k - 66; for (long len = 0; len <= max + 2; len++) for (long pat = 0; pat < 4; pat++) if (vf_mine()) { K.op = "rsa"; K.n = 4; mpz_set_si(K.v[0], BITS[bi]); mpz_set_si(K.v[1], 0); mpz_set_si(K.v[2], len); mpz_set_si(K.v[3], pat); vf_run(&K); } } vf_bound_done("rsa-oaep"); }
 	if (vf_bound_on("homomorphic")) { for (int sch = 0; sch < 6; sch++) for (int sd = 0; sd < (vf_tier ? 6 : 2); sd++) for (int bi = 0; bi < 2; bi++) { if (bi && sch < 4) continue; /* n^2 arithmetic of the Paillier family fits the configured precision only up to 512-bit moduli */ if (vf_mine()) { K.op = "he"; K.n = 3; mpz_set_si(K.v[0], sch); mpz_set_si(K.v[1], bi ? 1024 : 512); mpz_set_si(K.v[2], sd); vf_run(&K); } } vf_bound_done("homomorphic"); }
 	if (vf_bound_on("ecies-ecdh-ecmqv")) { for (unsigned ci = 0; ci < 6; ci++) for (int sd = 0; sd < (vf_tier ? 3 : 1); sd++) { for (long len = 0; len <= 66; len += (vf_tier || ci == 0 ? 1 : 2)) if (vf_mine()) { K.op = "ec"; K.n = 4; mpz_set_si(K.v[0], 0); mpz_set_si(K.v[1], EC[ci]); mpz_set_si(K.v[2], sd); mpz_set_si(K.v[3], len); vf_run(&K); }
 			static const long KL[] = {1, 16, 32, 33, 64, 65}; for (int kind = 1; kind <= 2; kind++) for (int ki = 0; ki < 6; ki++) for (int s2 = 0; s2 < (vf_tier ? 16 : 6); s2++) if (vf_mine()) { K.op = "ec"; K.n = 4; mpz_set_si(K.v[0], kind); mpz_set_si(K.v[1], EC[ci]); mpz_set_si(K.v[2], sd * 10 + s2); mpz_set_si(K.v[3], KL[ki]); vf_run(&K); } } vf_bound_done("ecies-ecdh-ecmqv"); }
